@@ -507,8 +507,10 @@ def r_fallback_every_tick(ctx):
         if isinstance(other, ast.Name):
             defs = [x for x in U.walk_no_nested(ff.node) if isinstance(x, ast.Assign) and any(isinstance(tg, ast.Name) and tg.id == other.id for tg in x.targets)]
             d = defs[-1].value if defs else None
+        # now - <the configured fallback timeout itself> (not a maximum / sum with another period)
+        rt = U.deref1(P, ff, d.right) if isinstance(d, ast.BinOp) else None
         shape = isinstance(d, ast.BinOp) and isinstance(d.op, ast.Sub) and _is_clock_call(d.left) and \
-            any(isinstance(x, ast.Attribute) and x.attr == 'leaderFallbackTimeout' for x in ast.walk(d.right))
+            isinstance(rt, ast.Attribute) and rt.attr == 'leaderFallbackTimeout'
         okc = good_dir and shape
     ctx.tick()
     if okc:
